@@ -118,9 +118,54 @@ Changed(before, after) ==
   {n \in DOMAIN before \cup DOMAIN after :
       n \notin DOMAIN before \/ n \notin DOMAIN after \/ before[n] # after[n]}
 
-OutsidersUntouched(before, after, inc) == Changed(before, after) \subseteq Allowed(before, inc)
+\* (a glyph the filter ADDS is not an outsider that was changed; it must be reported, see ReportsChanges)
+OutsidersUntouched(before, after, inc) == (Changed(before, after) \cap DOMAIN before) \subseteq Allowed(before, inc)
 ReportsChanges(before, after, mod) == Changed(before, after) \subseteq mod
 RenderPreserved(before, after, names) == \A n \in names : n \in DOMAIN after /\ Resolve(after, n) = Resolve(before, n)
+\* ---------------------------------------------------------------------------
+\* Interpolatable variants (BaseIFilter.__call__): one decision per glyph NAME for
+\* all masters.  ms is a sequence of glyph sets; a glyph may be missing from a
+\* (sparse) master.  Without an instantiator each master is decomposed against
+\* its own glyph set.
+\* ---------------------------------------------------------------------------
+AllNames(ms) == UNION {DOMAIN ms[k] : k \in 1..Len(ms)}
+AnyMaster(ms, n, P(_)) == \E k \in 1..Len(ms) : n \in DOMAIN ms[k] /\ P(ms[k][n])
+IJointModel(ms, inc, Trigger(_), Apply(_, _), Reports(_, _)) ==
+  LET hit == {n \in AllNames(ms) : n \in inc /\ AnyMaster(ms, n, Trigger)}
+  IN [ms  |-> [k \in 1..Len(ms) |-> [n \in DOMAIN ms[k] |-> IF n \in hit THEN Apply(ms[k], n) ELSE ms[k][n]]],
+      hit |-> hit]
+
+\* point structure of a glyph: what must agree across masters for interpolation
+Struct(g) == [cs |-> [k \in 1..Len(g.cs) |-> [j \in 1..Len(g.cs[k]) |-> g.cs[k][j][3]]],
+              comps |-> [k \in 1..Len(g.comps) |-> g.comps[k].b]]
+SameDomains(ms) == \A a, b \in 1..Len(ms) : DOMAIN ms[a] = DOMAIN ms[b]
+CompatibleMasters(ms) ==
+  \A n \in AllNames(ms) : \A a, b \in 1..Len(ms) :
+     (n \in DOMAIN ms[a] /\ n \in DOMAIN ms[b]) => Struct(ms[a][n]) = Struct(ms[b][n])
+
+\* ---------------------------------------------------------------------------
+\* PropagateAnchorsFilter, declaratively (property C15): anchors are only appended;
+\* an appended anchor sits where an anchor of the same name (or of its stem, for
+\* numbered ligature anchors) of one of the glyph's component bases lands under that
+\* component's transform; it never duplicates a name the glyph already had.
+\* ---------------------------------------------------------------------------
+AnchorsOnlyAppended(before, after) ==
+  /\ DOMAIN after = DOMAIN before
+  /\ \A n \in DOMAIN before :
+       /\ Len(after[n].anchors) >= Len(before[n].anchors)
+       /\ [after[n] EXCEPT !.anchors = SubSeq(after[n].anchors, 1, Len(before[n].anchors))] = before[n]
+NewAnchorsFollowComponents(before, after) ==
+  \A n \in DOMAIN before :
+    \A i \in (Len(before[n].anchors) + 1)..Len(after[n].anchors) :
+      LET a == after[n].anchors[i] IN
+      /\ \A j \in 1..Len(before[n].anchors) : before[n].anchors[j].n # a.n
+      /\ \E k \in 1..Len(before[n].comps) :
+           LET c == before[n].comps[k] IN
+           c.b \in DOMAIN after /\
+           \E j \in 1..Len(after[c.b].anchors) :
+              LET b == after[c.b].anchors[j] IN
+              (b.n = a.n \/ b.n = a.stem) /\ AppXY(Tr(c), b.x, b.y) = <<a.x, a.y>>
+
 MaxDepth(gs) == Max({0} \cup {Depth(gs, n) : n \in DOMAIN gs})
 
 =============================================================================
